@@ -16,7 +16,7 @@ struct FOp
 {
     std::string k; // write | advance | restart | checkpoint
     int n = 0; // write: record size in bytes
-    int cls = 0; // write: content class (0 ascii, 1 multi-byte utf-8, 2 long runs, 3 pseudo-random ascii)
+    int cls = 0; // write: content class (0 ascii, 1 multi-byte utf-8, 2 long runs, 3 pseudo-random ascii, 4 control characters incl. CR, CR LF, embedded LF)
     int64_t ms = 0; // advance: milliseconds
     int days = 0; // advance: whole days (after ms)
     int to = 0; // advance: 1 = to 23:59:59.999 of the current day first
